@@ -91,7 +91,7 @@ class Helper_tmInterpMidpoint(H):
     """tmInterpMidpoint(a, b): mean position; rotation H R_a with H^2 = R_b R_a^T and H = exp(log(R_b R_a^T)/2)
     (geodesically halfway); R_b = E R_a with E an arbitrary rotation (unit quaternion ghost)"""
     target = FSR + ':tmInterpMidpoint'
-    tier = 'thorough'
+    tier = 'off'  # off: not decided within 2 h in the thorough sweep of the final session (see DESIGN 11.8)
     body_exp = True
     body_log = True
     max_paths = 400
